@@ -1,380 +1,1073 @@
-"""C14 - TLS interception is byte-transparent after the handshake (ordering clauses of TLSLayer / TunnelLayer).
+"""C14 - TLS interception is byte-transparent after the handshake (TLSLayer / TunnelLayer against a scripted OpenSSL).
 
-Decided (path facts; exceptions of the OpenSSL calls are modelled at every statement of a ``try`` body for the classes its handlers name):
-  R14.1 ``TLSLayer.receive_data``: received bytes are fed to OpenSSL (``bio_write``) before anything is read; every ``recv`` result is
-        accumulated into one buffer that is not reset between reads; whenever that buffer is non-empty exactly one
-        ``DataReceived(self.conn, bytes(buffer))`` goes to the child, after the read loop; a ``ConnectionClosed`` is produced exactly on
-        the paths that saw ``ZeroReturnError`` (close_notify) and only *after* the data; ``tls_interact()`` runs after the last ``recv`` on
-        every path.  ``send_data``: ``sendall(data)`` then ``tls_interact()`` on every path.  ``tls_interact``: every successful
-        ``bio_read`` is followed by ``SendData(self.conn, <those bytes>)`` before the next read; the loop ends only on WantReadError.
-  R14.2 ``TLSLayer.receive_close`` forwards the transport close to the child unless ``get_shutdown() & RECEIVED_SHUTDOWN`` (evaluated on
-        the four shutdown states): a close is suppressed only when close_notify was already delivered.
-  R14.3 handshake-time data: ``TunnelLayer._handle_event`` routes DataReceived to ``receive_handshake_data`` while ESTABLISHING and to
-        ``receive_data`` otherwise; ``event_to_child`` appends to ``_event_queue`` (and delivers nothing) exactly while ESTABLISHING
-        without a pending OpenConnection; ``_handshake_finished`` opens the tunnel *before* replaying the queue in order and clears it;
-        ``TLSLayer.receive_handshake_data`` calls ``receive_data(b"")`` on every path that reports success, so application data that
-        arrived with the last handshake flight is not stranded.
-Not decided: OpenSSL's record processing for arbitrary record sizes / segmentations (library).
+How it is decided.  Nothing is matched syntactically.  A ``TLSLayer`` object is built by *interpreting* the repository's constructors
+(``mitmlint/pyint.py``: AST interpreter, generator methods by lazy replay; repository code is never imported or run), its three outside
+interfaces are replaced by recording stubs
+
+  * ``self.tls``          - a deterministic model of a pyOpenSSL ``Connection`` (``bio_write`` makes scripted plaintext chunks available,
+                            ``recv(n)`` hands them out honouring ``n`` and then raises WantReadError / ZeroReturnError (close_notify, sets
+                            RECEIVED_SHUTDOWN) / Error, TLS output produced while reading, writing or handshaking waits in a FIFO for
+                            ``bio_read(n)``, ``sendall`` encrypts into records or fails with an alert, ``do_handshake`` follows a script),
+  * ``self.child_layer``  - records every event it is handed and answers with scripted commands,
+  * the yielded commands  - what the layer hands to the layer below,
+
+and a schedule of events is fed to ``_handle_event`` (the public entry of the layer).  After EVERY event the normalised observations
+(events the child received; ``SendData`` bytes for the tunnel connection and commands of the child passed on, in order; wire bytes fed to
+OpenSSL; nothing left unread / unsent inside OpenSSL) are compared with a golden reference model of the tunnel semantics written down in
+this module (``_Golden``).  Renamed locals / private attributes, extracted or inlined helpers (also generator helpers returning values),
+``match`` instead of ``isinstance`` chains, ``contextlib.suppress``, early returns, inverted tests, extra logging / assertions are all
+just interpreted, so behaviour-preserving edits cannot change the verdict; an edit that loses, duplicates or reorders bytes or closes does.
+
+  R14.1 post-handshake data path: wire bytes are fed exactly once before reading; all plaintext OpenSSL has is delivered to the child
+        exactly once and in order within the same event (multi-chunk reads, chunks larger than the read size, consecutive events);
+        close_notify becomes exactly one ConnectionClosed *after* the data; TLS output produced while reading is flushed (all of it, in
+        order) before the event ends; the child's SendData is encrypted completely, exactly once, and every record produced is sent in
+        order - also when ``sendall`` fails with ZeroReturnError / SysCallError (nothing raised, pending output still flushed).
+  R14.2 transport close: forwarded to the child unless close_notify was already delivered (all four shutdown-flag states: SENT_SHUTDOWN
+        alone never suppresses it) - the child learns about the peer's close exactly once.
+  R14.3 handshake: tunnel bytes go to the handshake while ESTABLISHING; events for the child are queued (nothing delivered) exactly while
+        ESTABLISHING without a pending OpenConnection and replayed exactly once, in arrival order, when the handshake completes -
+        followed by application data that arrived with the last handshake flight (not stranded); with a pending OpenConnection events
+        are delivered directly and the completion is reported; a later re-establishment does not replay old events again.
+  R14.4 commands of the child: SendData for the tunnelled connection is encrypted and sent in every tunnel state (the write side stays
+        usable after the peer half-closed), everything else (other connections, CloseConnection, Log, unknown commands) is passed on
+        unchanged, exactly once and in order relative to the data.
+Not decided: OpenSSL's record processing itself (library; modelled by the stub), handshake *failure* paths (C15), DTLS specifics,
+OpenConnection initiated by the child (blocking command, needs a reply value).
 """
 
 from __future__ import annotations
 
 import ast
+import collections
+import copy
+import enum
+import logging
+import struct
+import types
 
 from ..core import AnalysisError
-from ..core import norm
-from ..model import attr_chain
-from ..model import call_name
-from ..model import last_attr
-from ..model import walk_in_order
-from ..paths import GenericSpec
-from ..paths import index_of
-from ..paths import traces_of
+from ..pyint import _Break
+from ..pyint import _Continue
+from ..pyint import _Return
+from ..pyint import ClassRef
+from ..pyint import Func
+from ..pyint import Gen
+from ..pyint import Interp
+from ..pyint import Raised
+from ..pyint import Rec
 from ..selftest import Mutant
 from ._helpers_B import ceval
-from ._helpers_B import consistent
-from ._helpers_B import feasible
-from ._helpers_B import FlowSpec
-from ._helpers_B import mentions
-from ._helpers_B import NotAnAtom
 
 PROP = "C14"
 REG = {
-    "strength": "narrow",
-    "technique": "CFG path enumeration (loops unrolled three times, implicit exception edges into the code's own handlers) with must-precede / "
-    "exactly-once facts; semantic evaluation of the shutdown-flag condition",
-    "claim": "ordering clauses only: bytes are fed to OpenSSL before reading, all decrypted bytes of one call are delivered once and before a "
-    "close_notify close, pending TLS output is flushed after reading/writing, transport closes are suppressed only after close_notify, and "
-    "events arriving during the handshake are queued and replayed in order after the tunnel opened.",
-    "note": "OpenSSL / pyOpenSSL behaviour (recv, bio_read, shutdown flags) is trusted. Loops unrolled three times.",
+    "strength": "partial",
+    "technique": "bounded semantic interpretation: TLSLayer/TunnelLayer are interpreted from their AST (pyint, generators by lazy replay) against a scripted "
+    "OpenSSL model, a recording child layer and a golden reference model; observations are compared after every event of each schedule",
+    "claim": "for every enumerated schedule (data events with 0-6 plaintext chunks incl. chunks larger than the read size, WantRead / close_notify / error "
+    "endings, TLS output produced while reading, transport close in all four shutdown states, child replies, failing sendall, handshake with queued events, "
+    "early data, pending OpenConnection, re-establishment) the child receives exactly the decrypted bytes once and in order with the close after the data, "
+    "every byte the child sends is encrypted once and all produced records leave in order, queued events are replayed once in order.",
+    "note": "pyOpenSSL behaviour is the stub's (trusted model). Bounded: schedules of at most five events, at most six chunks per read. Handshake failure paths "
+    "are not part of this property's check (C15).",
 }
 PT = "mitmproxy/proxy/layers/tls.py"
 TU = "mitmproxy/proxy/tunnel.py"
+CMDS = "mitmproxy/proxy/commands.py"
+EVTS = "mitmproxy/proxy/events.py"
+CONN = "mitmproxy/connection.py"
 
-E2C = "self.event_to_child"
-
-
-def _child_event(e):
-    """class name of the event passed to event_to_child in a ('callx', 'self.event_to_child', node) event"""
-    n = e[2]
-    return last_attr(n.args[0].func) if n.args and isinstance(n.args[0], ast.Call) else ""
+RS = 3  # the model's TLS record payload size: sendall(b"hello") produces the records <hel> <lo>
 
 
-def _r14_1(ctx):
-    rd = ctx.func(PT, "TLSLayer.receive_data")
-    where = (PT, "TLSLayer.receive_data", rd)
-    data_p = rd.args.args[1].arg
-    RECV, BIOW, INTERACT = "self.tls.recv", "self.tls.bio_write", "self.tls_interact"
+# ---------------------------------------------------------------------------------------------------
+# the OpenSSL model (state lives in a plain dict so that pyint's generator replay can snapshot / restore it)
 
-    def keep(ev):
-        if ev[0] == "callx":
-            return ev[1] in (RECV, BIOW, E2C) or ev[1].endswith(".extend")
-        if ev[0] == "yield_from":
-            return ev[1] == INTERACT
-        if ev[0] in ("assign", "cond", "except"):
-            return True
-        return False
 
-    res, eng = traces_of(rd, FlowSpec(keep=keep, call_nodes=True, unroll=3))
-    term = [(t, how) for t, how, st in res if how == "return"]
-    ctx.require(term, "TLSLayer.receive_data: no returning path")
-    ctx.paths += len(term)
-    # the buffer: receiver of the .extend(...) call that wraps recv
-    recvs = [n for n in walk_in_order(rd) if isinstance(n, ast.Call) and call_name(n) == RECV]
-    ctx.require(len(recvs) == 1, f"TLSLayer.receive_data: {len(recvs)} recv() call sites (one modelled)")
-    par = getattr(recvs[0], "_parent", None)
-    ctx.require(isinstance(par, ast.Call) and isinstance(par.func, ast.Attribute) and par.func.attr == "extend" and isinstance(par.func.value, ast.Name) and par.args == [recvs[0]],
-                "TLSLayer.receive_data: recv() result is not accumulated with <buffer>.extend(...) (accepted idiom)")
-    buf = par.func.value.id
-    bad = {"feed": 0, "accumulate": 0, "deliver": 0, "close": 0, "interact": 0}
-    n_multi = n_close = n_data = 0
-    for t, how in term:
-        names = [(e[1] if e[0] in ("callx", "yield_from") else None) for e in t]
-        r_idx = [i for i, e in enumerate(t) if e[0] == "callx" and e[1] == RECV]
-        ok_reads = [i for i in r_idx if i + 1 < len(t) and t[i + 1][0] == "callx" and t[i + 1][1] == buf + ".extend"]
-        # feed before read
-        fed = [i for i, e in enumerate(t) if e[0] == "callx" and e[1] == BIOW]
-        has_data = [e[2] for e in t if e[0] == "cond" and e[1] == data_p]
-        if not (has_data and not has_data[0]):  # unless the path established that there is nothing to feed
-            if len(fed) != 1 or (r_idx and fed[0] > r_idx[0]) or norm(t[fed[0]][2]) != f"{BIOW}({data_p})":
-                bad["feed"] += 1
-        # accumulation: the buffer is bound once, before the first read
-        binds = [i for i, e in enumerate(t) if e[0] == "assign" and e[1] == buf]
-        if len(binds) != 1 or (r_idx and binds[0] > r_idx[0]):
-            bad["accumulate"] += 1
-        if len(ok_reads) >= 2:
-            n_multi += 1
-        # delivery
-        sends = [(i, _child_event(e)) for i, e in enumerate(t) if e[0] == "callx" and e[1] == E2C]
-        data_ev = [i for i, k in sends if k == "DataReceived"]
-        close_ev = [i for i, k in sends if k == "ConnectionClosed"]
-        nonempty = [e[2] for e in t if e[0] == "cond" and e[1] == buf]
-        if nonempty and nonempty[-1]:
-            n_data += 1
-            good = len(data_ev) == 1 and (not r_idx or data_ev[0] > r_idx[-1])
-            if good:
-                n = t[data_ev[0]][2].args[0]
-                good = len(n.args) == 2 and norm(n.args[0]) == "self.conn" and norm(n.args[1]) in (f"bytes({buf})", buf)
-            if not good:
-                bad["deliver"] += 1
-        elif data_ev and not nonempty:
-            bad["deliver"] += 1
-        zero = ("except", "ZeroReturnError") in t
-        if zero:
-            n_close += 1
-            if len(close_ev) != 1 or (data_ev and close_ev[0] < data_ev[-1]) or norm(t[close_ev[0]][2].args[0]) != "events.ConnectionClosed(self.conn)":
-                bad["close"] += 1
-        elif close_ev:
-            bad["close"] += 1
-        inter = [i for i, e in enumerate(t) if e == ("yield_from", INTERACT)]
-        if not inter or (r_idx and inter[-1] < r_idx[-1]):
-            bad["interact"] += 1
-    ctx.require(n_multi > 0 and n_close > 0 and n_data > 0, f"TLSLayer.receive_data: expected multi-read ({n_multi}), close_notify ({n_close}) and data ({n_data}) paths")
-    ctx.check(bad["feed"] == 0, "R14.1", where, "bio_write(data) before the first recv()", f"{bad['feed']} path(s) read from OpenSSL before (or without) feeding the received bytes exactly once", desc="received bytes fed to OpenSSL before reading")
-    ctx.check(bad["accumulate"] == 0, "R14.1", where, "one plaintext buffer for all recv() results", f"{bad['accumulate']} path(s) rebind the plaintext buffer between reads: decrypted bytes are lost", desc=f"buffer `{buf}` bound once before the read loop ({n_multi} multi-read paths)")
-    ctx.check(bad["deliver"] == 0, "R14.1", where, "exactly one DataReceived(self.conn, bytes(plaintext)) after the read loop", f"{bad['deliver']} path(s) with decrypted bytes deliver them not exactly once / not completely / before reading finished", desc=f"one DataReceived with the whole buffer on {n_data} paths")
-    ctx.check(bad["close"] == 0, "R14.1", where, "ConnectionClosed exactly on close_notify, after the data", f"{bad['close']} path(s) deliver the close_notify close before the data, twice, not at all, or without close_notify", desc=f"close_notify -> one ConnectionClosed after the data ({n_close} paths)")
-    ctx.check(bad["interact"] == 0, "R14.1", where, "tls_interact() after the last recv()", f"{bad['interact']} path(s) do not flush pending TLS output after reading", desc="tls_interact after the read loop on every path")
+class Error(Exception):
+    pass
 
-    # send_data
-    sd = ctx.func(PT, "TLSLayer.send_data")
-    p = sd.args.args[1].arg
-    SENDALL = "self.tls.sendall"
-    res, eng = traces_of(sd, FlowSpec(keep=lambda ev: (ev[0] == "callx" and ev[1] == SENDALL) or ev == ("yield_from", INTERACT) or ev[0] == "except", call_nodes=True))
-    bad_s = 0
-    n_plain = 0
-    for t, how, st in res:
-        ctx.paths += 1
-        inter = [i for i, e in enumerate(t) if e == ("yield_from", INTERACT)]
-        snd = [i for i, e in enumerate(t) if e[0] == "callx"]
-        exc = any(e[0] == "except" for e in t)
-        ok = how == "return" and len(inter) == 1 and all(i < inter[0] for i in snd)
-        if not exc:
-            n_plain += 1
-            ok = ok and len(snd) == 1 and norm(t[snd[0]][2]) == f"{SENDALL}({p})"
-        bad_s += not ok
-    ctx.require(n_plain > 0, "TLSLayer.send_data: no exception-free path")
-    ctx.check(bad_s == 0, "R14.1", (PT, "TLSLayer.send_data", sd), "sendall(data) then tls_interact()", f"{bad_s} path(s) do not encrypt the whole payload exactly once and flush the produced records afterwards", desc="send_data: sendall(data); tls_interact() on all paths")
 
-    # tls_interact
-    ti = ctx.func(PT, "TLSLayer.tls_interact")
-    BIOR = "self.tls.bio_read"
-    res, eng = traces_of(ti, FlowSpec(keep=lambda ev: (ev[0] == "callx" and ev[1] in (BIOR, "commands.SendData")) or ev[0] in ("assign", "except"), call_nodes=True, unroll=3))
-    bad_t = n_two = 0
-    for t, how, st in res:
-        ctx.paths += 1
-        reads = [i for i, e in enumerate(t) if e[0] == "callx" and e[1] == BIOR]
-        if how != "return" or ("except", "WantReadError") not in t:
-            bad_t += 1  # the loop may only be left when OpenSSL has nothing more to send
-            continue
-        completed = 0
-        for k, i in enumerate(reads):
-            nxt = reads[k + 1] if k + 1 < len(reads) else len(t)
-            seg = t[i + 1 : nxt]
-            par = getattr(t[i][2], "_parent", None)
-            var = par.targets[0].id if isinstance(par, ast.Assign) and len(par.targets) == 1 and isinstance(par.targets[0], ast.Name) else None
-            sends = [e for e in seg if e[0] == "callx" and e[1] == "commands.SendData"]
-            if var is None or len(sends) != 1 or [norm(a) for a in sends[0][2].args] != ["self.conn", var] or sum(1 for e in seg if e == ("assign", var)) != 1:
-                bad_t += 1
+class WantReadError(Error):
+    pass
+
+
+class WantWriteError(Error):
+    pass
+
+
+class ZeroReturnError(Error):
+    pass
+
+
+class SysCallError(Error):
+    pass
+
+
+_SSL_EXC = {c.__name__: c for c in (Error, WantReadError, WantWriteError, ZeroReturnError, SysCallError)}
+RECEIVED_SHUTDOWN, SENT_SHUTDOWN = 2, 1
+
+
+def _ssl_world(shutdown=0, hs=(), sendmode="ok"):
+    return {
+        "fed": [],  # wire bytes handed to bio_write, in order
+        "react": [],  # per future bio_write: (plaintext chunks, ending, records produced when the read loop reaches the ending)
+        "plain": [],  # decrypted chunks waiting for recv()
+        "term": "want",  # what recv() raises once `plain` is empty: want | zero | error
+        "late": [],  # TLS records OpenSSL produces when recv() hits the ending (KeyUpdate answer, alert, ...)
+        "out": [],  # TLS records waiting for bio_read()
+        "shutdown": shutdown,
+        "hs": [list(x) for x in hs],  # do_handshake script: ["want", flight] | ["ok", flight, early plaintext chunks]
+        "handshaking": bool(hs),
+        "sendmode": sendmode,  # ok | zero | syscall
+        "calls": 0,
+        "child": [],  # what the child layer saw during the current event
+    }
+
+
+def _ssl_bio_write(w, data):
+    w["calls"] += 1
+    data = bytes(data)
+    if not data:
+        raise Error("bio_write of an empty buffer")  # what pyOpenSSL does
+    w["fed"].append(data)
+    if w["react"] and not w["handshaking"]:
+        chunks, term, late = w["react"].pop(0)
+        w["plain"].extend(chunks)
+        w["term"] = term
+        w["late"] = list(w["late"]) + list(late)
+    return len(data)
+
+
+def _ssl_recv(w, n, flags=None):
+    w["calls"] += 1
+    if not isinstance(n, int) or isinstance(n, bool) or n <= 0:
+        raise ValueError("recv: bufsiz must be a positive integer")
+    if w["handshaking"]:
+        raise WantReadError()
+    if w["plain"]:
+        c = w["plain"][0]
+        if len(c) > n:
+            w["plain"][0] = c[n:]
+            return c[:n]
+        w["plain"].pop(0)
+        return c
+    w["out"].extend(w["late"])
+    w["late"] = []
+    t = w["term"]
+    if t == "zero":
+        w["shutdown"] |= RECEIVED_SHUTDOWN
+        raise ZeroReturnError()
+    if t == "error":
+        w["term"] = "want"
+        raise Error([("SSL routines", "", "tlsv1 alert unknown ca")])
+    raise WantReadError()
+
+
+def _ssl_bio_read(w, n):
+    w["calls"] += 1
+    if not isinstance(n, int) or isinstance(n, bool) or n <= 0:
+        raise ValueError("bio_read: bufsiz must be a positive integer")
+    if not w["out"]:
+        raise WantReadError()
+    c = w["out"][0]
+    if len(c) > n:
+        w["out"][0] = c[n:]
+        return c[:n]
+    w["out"].pop(0)
+    return c
+
+
+def _ssl_sendall(w, data, flags=0):
+    w["calls"] += 1
+    data = bytes(data)
+    if w["sendmode"] == "ok":
+        for i in range(0, len(data), RS):
+            w["out"].append(b"<" + data[i : i + RS] + b">")
+        return len(data)
+    w["out"].append(b"!alert!")
+    raise (ZeroReturnError if w["sendmode"] == "zero" else SysCallError)()
+
+
+def _ssl_get_shutdown(w):
+    return w["shutdown"]
+
+
+def _ssl_do_handshake(w):
+    w["calls"] += 1
+    if not w["hs"]:
+        w["handshaking"] = False
+        return None  # already complete: a no-op
+    step = w["hs"].pop(0)
+    w["out"].extend(step[1])
+    if step[0] == "want":
+        raise WantReadError()
+    w["handshaking"] = False
+    w["plain"].extend(step[2])
+    w["term"] = "want"
+    return None
+
+
+# ---------------------------------------------------------------------------------------------------
+# golden reference model of the tunnel (what the property demands, in terms of the same OpenSSL model)
+
+BIG = 1 << 20
+
+
+class GoldenTunnel:
+    """what tunnel.TunnelLayer itself promises (a transparent tunnel whose handshake completes with the first tunnel bytes): events for the
+    child are queued while ESTABLISHING unless an OpenConnection is pending, replayed once in order when the handshake completes; SendData
+    of the child for the inner connection goes to the tunnel connection, everything else is passed on."""
+
+    def __init__(self, w, state, pending, policy, tunnel="conn"):
+        self.w, self.state, self.pending, self.policy, self.tunnel = w, state, pending, policy, tunnel
+        self.queue = []
+        self.child = []
+        self.parent = []
+
+    # -- the protocol inside the tunnel (overridden for TLS)
+    def handshake(self, data):
+        return True
+
+    def receive_data(self, data):
+        self.to_child(("data", "conn", data))
+
+    def send_data(self, data):
+        self.parent.append(("send", self.tunnel, data))
+
+    def receive_close(self):
+        self.to_child(("close", "conn"))
+
+    # -- the tunnel
+    def to_child(self, ev):
+        if self.state == "E" and self.pending is None:
+            self.queue.append(ev)
+            return
+        self.child.append(ev)
+        for c in self.policy.get(ev[0], ()):
+            if c[0] == "send":
+                self.send_data(c[1])
+            elif c[0] == "closecmd":
+                self.parent.append(("closeconn", self.tunnel))
+            else:
+                self.parent.append(("pass", c[0]))
+
+    def step(self, st):
+        self.child, self.parent = [], []
+        if st[0] == "other":
+            self.to_child(st[1])
+        elif st[0] == "wire":
+            if self.state == "E":
+                if self.handshake(st[1]):
+                    self.state = "O"
+                    if self.pending is not None:
+                        p, self.pending = self.pending, None
+                        self.to_child(("occ", p, None))
+                    else:
+                        q, self.queue = self.queue, []
+                        for e in q:
+                            self.to_child(e)
+            else:
+                self.receive_data(st[1])
+        elif st[0] == "close":
+            if self.state == "O":
+                self.receive_close()
+            self.state = "C"
+        elif st[0] == "reestablish":
+            self.state = "E"
+        return _norm(self.child), _norm(self.parent)
+
+
+class _Golden(GoldenTunnel):
+    """the TLS tunnel, in terms of the OpenSSL model"""
+
+    def interact(self):
+        while True:
+            try:
+                d = _ssl_bio_read(self.w, BIG)
+            except WantReadError:
+                return
+            self.parent.append(("send", self.tunnel, d))
+
+    def handshake(self, data):
+        if data:
+            _ssl_bio_write(self.w, data)
+        try:
+            _ssl_do_handshake(self.w)
+        except WantReadError:
+            self.interact()
+            return False
+        self.receive_data(b"")  # application data that came with the last flight
+        return True
+
+    def receive_data(self, data):
+        if data:
+            _ssl_bio_write(self.w, data)
+        buf, close = b"", False
+        while True:
+            try:
+                buf += _ssl_recv(self.w, BIG)
+            except WantReadError:
                 break
-            completed += 1
-        n_two += completed >= 2
-    ctx.require(n_two > 0 or bad_t > 0, "TLSLayer.tls_interact: no path with two completed reads (loop shape changed)")
-    ctx.check(bad_t == 0, "R14.1", (PT, "TLSLayer.tls_interact", ti), "bio_read -> SendData(self.conn, data) until WantReadError", f"{bad_t} path(s) drop, duplicate or reorder TLS records produced by OpenSSL, or leave the loop early", desc="tls_interact: every bio_read chunk sent once, in order, until WantReadError")
-    ctx.expect_instances("R14.1", 7)
+            except ZeroReturnError:
+                close = True
+                break
+            except Error:
+                break
+        self.interact()
+        if buf:
+            self.to_child(("data", "conn", buf))
+        if close:
+            self.to_child(("close", "conn"))
+
+    def send_data(self, data):
+        try:
+            _ssl_sendall(self.w, data)
+        except (ZeroReturnError, SysCallError):
+            pass
+        self.interact()
+
+    def receive_close(self):
+        if not (_ssl_get_shutdown(self.w) & RECEIVED_SHUTDOWN):
+            self.to_child(("close", "conn"))
 
 
-def _r14_2(ctx):
-    rc = ctx.func(PT, "TLSLayer.receive_close")
-    SUPER = "super().receive_close"
-    res, eng = traces_of(rc, FlowSpec(keep=lambda ev: ev[0] == "cond" or ev == ("yield_from", SUPER), implicit_raises=False))
-    flags = {"SSL.RECEIVED_SHUTDOWN": 2, "SSL.SENT_SHUTDOWN": 1}
-
-    def atom_for(state):
-        def atom(node, env):
-            if isinstance(node, ast.Call) and call_name(node) == "self.tls.get_shutdown" and not node.args:
-                return state
-            if isinstance(node, ast.Attribute) and attr_chain(node) in flags:
-                return flags[attr_chain(node)]
-            if isinstance(node, (ast.Call, ast.Attribute, ast.Name)):
-                raise AnalysisError(f"TLSLayer.receive_close: condition term not modelled: {norm(node)}")
-            raise NotAnAtom
-
-        return atom
-
-    ctx.require(any(e[0] == "cond" for t, _, _ in res for e in t), "TLSLayer.receive_close no longer branches (shape not modelled)")
-    for state in (0, 1, 2, 3):
-        got = set()
-        for t, how, st in res:
-            if how == "return" and feasible(t, lambda n: True, atom_for(state), what="TLSLayer.receive_close"):
-                got.add(("yield_from", SUPER) in t)
-                ctx.paths += 1
-        want = not (state & 2)
-        ctx.check(got == {want}, "R14.2", (PT, "TLSLayer.receive_close", rc), f"shutdown state {state}: forward close = {want}",
-                  f"with get_shutdown()={state} the transport close is {'forwarded' if True in got else 'suppressed'}"
-                  + (" although close_notify was already delivered as a close (duplicate close)" if not want else " although no close_notify was received: the child never learns that the peer closed"),
-                  desc=f"get_shutdown()={state} -> {'forward' if want else 'suppress'}")
-    tr = ctx.func(TU, "TunnelLayer.receive_close")
-    res, eng = traces_of(tr, FlowSpec(keep=lambda ev: ev[0] == "callx" and ev[1] == E2C, call_nodes=True, implicit_raises=False))
-    ok = all(how == "return" and len(t) == 1 and norm(t[0][2].args[0]) == "events.ConnectionClosed(self.conn)" for t, how, st in res)
-    ctx.check(ok, "R14.2", (TU, "TunnelLayer.receive_close", tr), "event_to_child(ConnectionClosed(self.conn))", "the default close handling does not deliver exactly one ConnectionClosed for the inner connection", desc="TunnelLayer.receive_close delivers ConnectionClosed(self.conn)")
-    ctx.expect_instances("R14.2", 5)
+def _norm(seq):
+    """merge adjacent byte deliveries for the same connection (how the bytes are cut into events / commands is not part of the property)"""
+    out = []
+    for x in seq:
+        if out and x[0] in ("data", "send") and out[-1][0] == x[0] and out[-1][:-1] == x[:-1]:
+            out[-1] = out[-1][:-1] + (out[-1][-1] + x[-1],)
+        else:
+            out.append(tuple(x))
+    return out
 
 
-def _r14_3(ctx):
-    # (a) routing of DataReceived
-    he = ctx.func(TU, "TunnelLayer._handle_event")
-    RHD, RD = "self.receive_handshake_data", "self.receive_data"
-    ISDATA = "isinstance(event, events.DataReceived)"
-    res, eng = traces_of(he, FlowSpec(keep=lambda ev: (ev[0] == "cond" and (ev[1] == ISDATA or "self.tunnel_state" in ev[1])) or (ev[0] == "callx" and ev[1] in (RHD, RD)), call_nodes=True, implicit_raises=False))
-    states = {"TunnelState.ESTABLISHING": "E", "TunnelState.OPEN": "O", "TunnelState.CLOSED": "C", "TunnelState.INACTIVE": "I"}
+# ---------------------------------------------------------------------------------------------------
+# the interpreter
 
-    def world(ts, pending, fname):
-        def atom(node, env):
-            if isinstance(node, ast.Attribute):
-                ch = attr_chain(node)
-                if ch == "self.tunnel_state":
-                    return ts
-                if ch in states:
-                    return states[ch]
-                if ch == "self.command_to_reply_to":
-                    return pending
-            if isinstance(node, (ast.Call, ast.Attribute, ast.Name)):
-                raise AnalysisError(f"TunnelLayer.{fname}: condition term not modelled: {norm(node)}")
-            raise NotAnAtom
 
-        return atom
+class _ConsumerExit(Exception):
+    """the body of a ``for`` loop over a generator left the loop (break / return / exception): unwinds the producer like a closed generator"""
 
-    ts_rel = lambda nd: mentions(nd, "self.tunnel_state")  # noqa: E731
-    data_paths = [(t, how) for t, how, st in res if any(e[0] == "cond" and e[1] == ISDATA and e[2] for e in t)]
-    ctx.require(data_paths and any(e[0] == "cond" and ts_rel(e[3]) for t, _ in data_paths for e in t), "TunnelLayer._handle_event: DataReceived handling / tunnel-state test not found")
-    n = bad = 0
-    for ts in "EOC":
-        for t, how in data_paths:
-            if not feasible(t, ts_rel, world(ts, None, "_handle_event"), what="TunnelLayer._handle_event"):
-                continue
-            n += 1
-            ctx.paths += 1
-            calls = [(e[1], norm(e[2])) for e in t if e[0] == "callx"]
-            want = RHD if ts == "E" else RD
-            bad += not (len(calls) == 1 and calls[0] == (want, f"{want}(event.data)"))
-    ctx.require(n >= 3, "TunnelLayer._handle_event: DataReceived paths not found")
-    ctx.check(bad == 0, "R14.3", (TU, "TunnelLayer._handle_event", he), "DataReceived -> receive_handshake_data while ESTABLISHING, else receive_data",
-              f"{bad} of {n} (state, path) case(s) hand tunnel bytes to the wrong consumer (or not exactly once)", desc=f"DataReceived routed by tunnel state ({n} cases)")
-    # (b) queueing in event_to_child
-    ec = ctx.func(TU, "TunnelLayer.event_to_child")
-    evp = ec.args.args[1].arg
-    APP, CHILD = "self._event_queue.append", "self.child_layer.handle_event"
-    res, eng = traces_of(ec, FlowSpec(keep=lambda ev: ev[0] == "cond" or (ev[0] == "callx" and ev[1] in (APP, CHILD)) or (ev[0] == "callx" and ev[1].startswith("self._event_queue.")), call_nodes=True, implicit_raises=False))
-    rel = lambda nd: mentions(nd, "self.tunnel_state", "self.command_to_reply_to")  # noqa: E731
-    ctx.require(any(e[0] == "cond" and rel(e[3]) for t, _, _ in res for e in t), "TunnelLayer.event_to_child no longer tests tunnel_state / command_to_reply_to")
-    for ts in "EOCI":
-        for pending in (None, "cmd"):
-            want_queue = ts == "E" and pending is None
-            verdicts = set()
-            for t, how, st in res:
-                if how != "return" or not feasible(t, rel, world(ts, pending, "event_to_child"), what="TunnelLayer.event_to_child"):
+    def __init__(self, token, exc):
+        super().__init__("consumer left the loop")
+        self.token, self.exc = token, exc
+
+
+class _TInterp(Interp):
+    """pyint + (a) generators with real producer / consumer interleaving and ``yield from`` values (below), (b) the exception hierarchy of
+    the OpenSSL model, (c) rule-supplied stubs may receive records, (d) classes whose constructor is outside the interpreter's subset become
+    opaque records, (e) the members of ``connection.ConnectionState`` are a real ``enum.Flag``."""
+
+    flag = None
+    construct = frozenset()
+    _kinds: dict = {}
+    _props: dict = {}
+
+    # -- generators.  pyint runs a generator by replaying it from the start for every value and restoring the state its arguments had -
+    #    which also undoes what the *consumer* did in between (a ``for`` loop over a generator whose body talks to OpenSSL or the child), and
+    #    it gives ``yield from`` no value.  Here a generator body is never suspended; instead the consumer is run from inside the producer's
+    #    ``yield`` (internal iteration), which produces exactly the order of effects of real generators for the consumers that occur:
+    #      * the harness itself (pulls every command, does nothing in between): a yield appends to the output,
+    #      * ``yield from g()``: g's body runs in place, its yields go where the enclosing generator's yields go, its return value is the value,
+    #      * ``for x in g(): body``: g's body runs, every yield binds x and runs ``body`` (break / return / an exception in the body leave
+    #        through g's ``finally`` blocks like a closed generator, without being seen by g's ``except`` clauses),
+    #      * every other consumer (list(), comprehension, unpacking, iter()/next()): the generator is run to its end first (eager).
+    _handlers: list = []
+
+    def run_direct(self, g):
+        if self._gen_targets or self._handlers:
+            raise AnalysisError("C14 harness: nested top-level run")
+        out = []
+        self._handlers = [out.append]
+        try:
+            self._inline(g)
+            return out
+        finally:
+            self._handlers = []
+
+    def _fresh(self, v):
+        return isinstance(v, Gen) and self._handlers and not self._gen_targets and v.k == 0 and not v.done
+
+    def _inline(self, g):
+        g.done = True
+        try:
+            self.block(g.node.body, dict(g.env), g.f.mod, g.depth)
+        except _Return as r:
+            return r.value
+        return None
+
+    def do_yield(self, value):
+        if not self._gen_targets and self._handlers:
+            h = self._handlers.pop()  # the consumer runs in its own context
+            try:
+                h(value)
+            finally:
+                self._handlers.append(h)
+            return None
+        return Interp.do_yield(self, value)
+
+    def iterate(self, v, node):
+        if self._fresh(v):
+            out = []
+            self._handlers.append(out.append)
+            try:
+                self._inline(v)
+            finally:
+                self._handlers.pop()
+            return out
+        return Interp.iterate(self, v, node)
+
+    def loop(self, st, env, mod, depth):
+        if not isinstance(st, ast.For):
+            return Interp.loop(self, st, env, mod, depth)
+        itv = self.ev(st.iter, env, mod, depth)
+        broke = False
+        if self._fresh(itv):
+            token = object()
+
+            def body(value):
+                self.tick()
+                self.assign(st.target, value, env, mod, depth)
+                try:
+                    self.block(st.body, env, mod, depth)
+                except _Continue:
+                    return
+                except (_Break, _Return, Raised) as ex:
+                    raise _ConsumerExit(token, ex)
+
+            self._handlers.append(body)
+            try:
+                try:
+                    self._inline(itv)
+                finally:
+                    self._handlers.pop()
+            except _ConsumerExit as ce:
+                if ce.token is not token:
+                    raise
+                if not isinstance(ce.exc, _Break):
+                    raise ce.exc
+                broke = True
+        else:
+            for x in self.iterate(itv, st.iter):
+                self.tick()
+                self.assign(st.target, x, env, mod, depth)
+                try:
+                    self.block(st.body, env, mod, depth)
+                except _Break:
+                    broke = True
+                    break
+                except _Continue:
                     continue
-                ctx.paths += 1
-                calls = [(e[1], [norm(a) for a in e[2].args]) for e in t if e[0] == "callx"]
-                if want_queue:
-                    verdicts.add(calls == [(APP, [evp])])
-                else:
-                    verdicts.add(bool(calls) and calls[0] == (CHILD, [evp]) and all(c[0] == CHILD for c in calls))
-            ctx.require(verdicts, f"TunnelLayer.event_to_child: no feasible path for state {ts}, pending={pending}")
-            ctx.cells += 1
-            ctx.check(verdicts == {True}, "R14.3", (TU, "TunnelLayer.event_to_child", ec), f"tunnel_state={ts}, pending OpenConnection={pending is not None}: {'queue' if want_queue else 'deliver'}",
-                      "events are " + ("not appended to the queue (or also delivered) during the handshake: early data overtakes the handshake or is lost" if want_queue else "queued or dropped although the tunnel is not establishing: they are never delivered"),
-                      desc=f"state {ts}/pending={pending is not None}: {'append to _event_queue only' if want_queue else 'child_layer.handle_event(event)'}")
-    # (c) replay in _handshake_finished
-    hf = ctx.func(TU, "TunnelLayer._handshake_finished")
-    errp = hf.args.args[1].arg
-    res, eng = traces_of(hf, FlowSpec(keep=lambda ev: ev[0] in ("cond", "loop", "assignx") or (ev[0] == "callx" and (ev[1] == E2C or ev[1].startswith("self._event_queue."))), call_nodes=True, assign_nodes=True, loops=True, implicit_raises=False, unroll=2))
-    n = bad = 0
-    for t, how, st in res:
-        if how != "return" or any(e[0] == "cond" and e[1] == errp and e[2] for e in t) or any(e[0] == "cond" and e[1] == "self.command_to_reply_to" and e[2] for e in t):
-            continue
-        loops = [e for e in t if e[0] == "loop" and e[1]]
-        if not loops:
+        if not broke:
+            self.block(st.orelse, env, mod, depth)
+
+    def ev(self, e, env, mod, depth):
+        if isinstance(e, ast.YieldFrom):
+            v = self.ev(e.value, env, mod, depth)
+            if self._fresh(v):
+                return self._inline(v)
+            if isinstance(v, Gen):
+                raise AnalysisError("C14 harness: `yield from` of a partially consumed generator (not modelled)")
+            for x in self.iterate(v, e.value):
+                self.do_yield(x)
+            return None
+        return Interp.ev(self, e, env, mod, depth)
+
+    # -- speed (same semantics as pyint, computed once): no source rendering per call, generator-ness cached per function
+    def ev_call(self, e, env, mod, depth):
+        f = self.ev(e.func, env, mod, depth)
+        args = self.elts(e.args, env, mod, depth)
+        kwargs = {}
+        for k in e.keywords:
+            if k.arg is None:
+                kwargs.update(self.ev(k.value, env, mod, depth))
+            else:
+                kwargs[k.arg] = self.ev(k.value, env, mod, depth)
+        if isinstance(f, tuple) and f and f[0] in ("$builtin", "$dictmethod", "$typing", "$exc"):
+            if f[0] == "$builtin":
+                return self.builtin(f[1], args, kwargs, e, env, mod, depth)
+            if f[0] == "$dictmethod":
+                return self.dictmethod(f[1], f[2], args, kwargs)
+            if f[0] == "$exc":
+                return f"<exc:{f[1]}>"
+            return Interp.ev_call(self, e, env, mod, depth)  # typing helpers: arguments are pure
+        return self.apply(f, args, kwargs, depth, e)
+
+    def apply(self, f, args, kwargs, depth, node=None):
+        if isinstance(f, Func):
+            self.calls += 1
+            if depth + 1 > self.max_depth:
+                raise AnalysisError(f"pyint: call depth {self.max_depth} exceeded")
+            return self.call_func(f, args, kwargs, depth + 1)
+        if isinstance(f, ClassRef):
+            self.calls += 1
+            return self.instantiate(f, args, kwargs, depth, "?")
+        if not isinstance(f, Rec) and callable(f):
+            self.calls += 1
+            return self.native_call(f, args, kwargs, "?")
+        return Interp.apply(self, f, args, kwargs, depth, node)
+
+    def call_func(self, f, args, kwargs, depth):
+        node = f.node
+        kind = self._kinds.get(id(node))
+        if kind is None:
+            kind = "plain"
+            if isinstance(node, ast.Lambda) or isinstance(node, ast.AsyncFunctionDef):
+                kind = "other"
+            else:
+                for n in ast.walk(node):
+                    if isinstance(n, ast.Await) and self._owner(n, node):
+                        kind = "other"
+                        break
+                    if isinstance(n, (ast.Yield, ast.YieldFrom)) and self._owner(n, node):
+                        kind = "gen"
+            self._kinds[id(node)] = kind
+        if kind == "other":
+            return Interp.call_func(self, f, args, kwargs, depth)
+        # parameter binding exactly as pyint.call_func
+        a = node.args
+        env = {"$closure": f.closure} if f.closure else {}
+        params = [p.arg for p in a.posonlyargs + a.args]
+        args = list(args)
+        if f.bound is not None and params and params[0] in ("self", "cls"):
+            args = [f.bound] + args
+            env["$self"] = f.bound
+            env["$fn"] = node
+        for p, v in zip(params, args):
+            env[p] = v
+        extra = args[len(params):]
+        if a.vararg:
+            env[a.vararg.arg] = tuple(extra)
+        elif extra:
+            raise Raised("TypeError", "too many positional arguments")
+        dnames = params[len(params) - len(a.defaults):]
+        for p, d in zip(dnames, a.defaults):
+            if p not in env and p not in kwargs:
+                env[p] = self.ev(d, {}, f.mod, depth)
+        for p, d in zip(a.kwonlyargs, a.kw_defaults):
+            if p.arg not in kwargs and d is not None:
+                env[p.arg] = self.ev(d, {}, f.mod, depth)
+        known = set(params) | {p.arg for p in a.kwonlyargs}
+        rest = {}
+        for k, v in kwargs.items():
+            if k in known:
+                env[k] = v
+            else:
+                rest[k] = v
+        if a.kwarg:
+            env[a.kwarg.arg] = rest
+        elif rest:
+            raise Raised("TypeError", f"unexpected keyword {list(rest)}")
+        for p in params + [p.arg for p in a.kwonlyargs]:
+            if p not in env:
+                raise Raised("TypeError", f"missing argument {p}")
+        if kind == "gen":
+            return Gen(self, f, node, env, depth)
+        try:
+            self.block(node.body, env, f.mod, depth)
+        except _Return as r:
+            return r.value
+        return None
+
+    def find_property(self, rec, attr, kind="getter"):
+        if rec._impl is None:
+            return None
+        key = (rec._impl, attr, kind)
+        if key not in self._props:
+            self._props[key] = Interp.find_property(self, rec, attr, kind)
+        return self._props[key]
+
+    def exc_isa(self, name, handler, mod):
+        c = _SSL_EXC.get(name)
+        if c is not None:
+            return handler in {k.__name__ for k in c.__mro__}
+        return Interp.exc_isa(self, name, handler, mod)
+
+    def native_call(self, f, args, kwargs, where):
+        if f in (str, repr) and len(args) == 1 and not kwargs and isinstance(args[0], Rec):
+            return f"<{args[0]._name}>"  # only ever ends up in log messages
+        if getattr(f, "_c14_stub", False):
+            try:
+                return f(*args, **kwargs)
+            except AnalysisError:
+                raise
+            except Exception as e:
+                raise Raised(type(e).__name__, str(e))
+        return Interp.native_call(self, f, args, kwargs, where)
+
+    def instantiate(self, c, args, kwargs, depth, where):
+        if c.mod.rel in (CMDS, EVTS) or (c.mod.rel, c.node.name) in self.construct:
+            return Interp.instantiate(self, c, args, kwargs, depth, where)
+        # anything else (other layers, hook payloads, helper records): constructed like any class if its constructor is within the
+        # interpreter's subset, otherwise an opaque record - using such an object's state later is then refused (AnalysisError)
+        try:
+            return Interp.instantiate(self, c, args, kwargs, depth, where)
+        except AnalysisError:
+            return Rec(c.node.name, _impl=(c.mod.rel, getattr(c.node, "_qual", c.node.name)), _name=f"opaque:{c.node.name}", opaque_args=tuple(args))
+
+    def class_attr(self, cref, attr, depth):
+        if self.flag is not None and cref.mod.rel == CONN and cref.node.name == "ConnectionState" and attr in self.flag.__members__:
+            return self.flag[attr]
+        return Interp.class_attr(self, cref, attr, depth)
+
+
+class _FastModel:
+    """Model proxy caching the class-hierarchy queries (the tree does not change during a run)"""
+
+    def __init__(self, m):
+        self._m, self._mro, self._meth, self._dotted = m, {}, {}, {}
+
+    def __getattr__(self, k):
+        return getattr(self._m, k)
+
+    def mro(self, rel, qual):
+        k = (rel, qual)
+        if k not in self._mro:
+            self._mro[k] = self._m.mro(rel, qual)
+        return self._mro[k]
+
+    def method(self, rel, cls_qual, name):
+        k = (rel, cls_qual, name)
+        if k not in self._meth:
+            r = None
+            for m, c in self.mro(rel, cls_qual):
+                for st in c.body:
+                    if isinstance(st, (ast.FunctionDef, ast.AsyncFunctionDef)) and st.name == name:
+                        r = (m, st)
+                        break
+                if r:
+                    break
+            self._meth[k] = r
+        return self._meth[k]
+
+    def module_by_dotted(self, dotted):
+        if dotted not in self._dotted:
+            self._dotted[dotted] = self._m.module_by_dotted(dotted)
+        return self._dotted[dotted]
+
+
+def _stub(fn):
+    fn._c14_stub = True
+    return fn
+
+
+def _connection_state(model):
+    """connection.ConnectionState as a real enum.Flag (members evaluated from the class body)"""
+    cls = model.cls(CONN, "ConnectionState")
+    members = {}
+    for st in cls.body:
+        if isinstance(st, ast.Assign) and len(st.targets) == 1 and isinstance(st.targets[0], ast.Name):
+            members[st.targets[0].id] = ceval(st.value, dict(members), None, "connection.ConnectionState")
+    if not {"CLOSED", "CAN_READ", "CAN_WRITE", "OPEN"} <= set(members) or not all(isinstance(v, int) for v in members.values()):
+        raise AnalysisError("connection.ConnectionState: members CLOSED / CAN_READ / CAN_WRITE / OPEN with integer values not found")
+    return enum.Flag("ConnectionState", members)
+
+
+class _Env:
+    """what every scenario shares: parsed classes of the protocol vocabulary"""
+
+    def __init__(self, ctx, layer=(PT, "TLSLayer")):
+        m = _FastModel(ctx.model)
+        self.model = m
+        self.kinds, self.props = {}, {}
+        self.flag = _connection_state(m)
+        self.layer = layer
+        self.laymod, self.tunmod = m.module(layer[0]), m.module(TU)
+        self.cmdmod, self.evmod = m.module(CMDS), m.module(EVTS)
+        self.layer_cls = m.cls(*layer)
+        self.construct = frozenset((mm.rel, cc.name) for mm, cc in m.mro(*layer))
+        ctx.require((TU, "TunnelLayer") in self.construct, f"{layer[1]} no longer derives from tunnel.TunnelLayer")
+        self.state_cls = m.cls(TU, "TunnelState")
+        for n in ("SendData", "CloseConnection", "Log", "ConnectionCommand"):
+            m.cls(CMDS, n)
+        for n in ("DataReceived", "ConnectionClosed", "Event"):
+            m.cls(EVTS, n)
+        self.trusted = {
+            "collections": collections, "enum": enum, "struct": struct, "logging": _Logging(), "time": _Clock(),
+            "OpenSSL": types.SimpleNamespace(SSL=_SSLNamespace()),
+        }
+
+    def connection(self, it, cls_name, name, **attrs):
+        """a record bound to connection.Client / connection.Server: every declared field exists (None unless given), properties and methods
+        are interpreted from the class"""
+        fields = {}
+        for _, cc in self.model.mro(CONN, cls_name):
+            for st in cc.body:
+                if isinstance(st, ast.AnnAssign) and isinstance(st.target, ast.Name):
+                    fields.setdefault(st.target.id, None)
+        fields.update(state=self.flag.OPEN, tls=False, transport_protocol="tcp", certificate_list=[], alpn_offers=[], cipher_list=[], id=name, peername=(name, 1), sockname=(name, 2))
+        fields.update(attrs)
+        return Rec(cls_name, _bases=tuple(cc.name for _, cc in self.model.mro(CONN, cls_name)[1:]), _impl=(CONN, cls_name), _name=name, **fields)
+
+
+class _SSLNamespace:
+    """OpenSSL.SSL as far as the model goes; anything else is refused (never guessed)"""
+
+    RECEIVED_SHUTDOWN, SENT_SHUTDOWN = RECEIVED_SHUTDOWN, SENT_SHUTDOWN
+    Error, WantReadError, WantWriteError, ZeroReturnError, SysCallError = Error, WantReadError, WantWriteError, ZeroReturnError, SysCallError
+
+    def __getattr__(self, name):
+        raise AnalysisError(f"OpenSSL.SSL.{name}: not part of the OpenSSL model of C14 (shape not modelled)")
+
+
+class _Clock:
+    def __getattr__(self, name):
+        if name.startswith("__"):
+            raise AttributeError(name)
+        return _stub(lambda *a, **k: 0.0)
+
+
+class _NullLogger:
+    def __getattr__(self, name):
+        if name.startswith("__"):
+            raise AttributeError(name)
+        return _stub(lambda *a, **k: None)
+
+
+class _Logging:
+    """the logging module: level constants; loggers swallow everything (log output is not part of the property)"""
+
+    def __init__(self):
+        for n in ("CRITICAL", "FATAL", "ERROR", "WARNING", "WARN", "INFO", "DEBUG", "NOTSET"):
+            setattr(self, n, getattr(logging, n))
+        self.getLogger = _stub(lambda *a, **k: _NullLogger())
+        self.getLevelName = _stub(lambda lv: logging.getLevelName(lv))
+        for n in ("debug", "info", "warning", "error", "critical", "exception", "log"):
+            setattr(self, n, _stub(lambda *a, **k: None))
+
+
+class _World:
+    """one tunnel layer under test (TLSLayer, or the plain tunnel.TunnelLayer with a tunnel connection of its own) with its stubs"""
+
+    def __init__(self, env, w, state, pending, policy, side="client"):
+        self.env, self.w, self.policy = env, w, policy
+        it = self.it = _TInterp(env.model, trusted_modules=env.trusted, max_steps=600000)
+        it.flag, it.construct, it._kinds, it._props = env.flag, env.construct, env.kinds, env.props
+        self.conn = env.connection(it, "Client" if side == "client" else "Server", "conn")
+        self.other = env.connection(it, "Server" if side == "client" else "Client", "other")
+        client, server = (self.conn, self.other) if side == "client" else (self.other, self.conn)
+        context = Rec("Context", _name="context", client=client, server=server, layers=[], options=Rec("Options", _name="options", proxy_debug=False))
+        self.plain = env.layer == (TU, "TunnelLayer")
+        if self.plain:
+            self.tunnel = env.connection(it, "Server", "tunnel")
+            self.layer = it.instantiate(ClassRef(env.laymod, env.layer_cls), [context, self.tunnel, self.conn], {}, 0, "harness")
+        else:
+            self.tunnel = self.conn
+            self.layer = it.instantiate(ClassRef(env.laymod, env.layer_cls), [context, self.conn], {}, 0, "harness")
+            tls = Rec("SSLConnection", _name="tls", _w=w)
+            for name, fn in (("bio_write", _ssl_bio_write), ("recv", _ssl_recv), ("bio_read", _ssl_bio_read), ("sendall", _ssl_sendall), ("get_shutdown", _ssl_get_shutdown),
+                             ("do_handshake", _ssl_do_handshake)):
+                object.__setattr__(tls, name, _stub(lambda *a, _f=fn, **k: _f(w, *a, **k)))
+            for name, val in (("get_peer_cert_chain", []), ("get_peer_certificate", None), ("get_alpn_proto_negotiated", b"h2"), ("get_cipher_name", "TLS_AES_128_GCM_SHA256"),
+                              ("get_protocol_version_name", "TLSv1.3"), ("get_verified_chain", []), ("get_servername", None)):
+                object.__setattr__(tls, name, _stub(lambda *a, _v=val: copy.copy(_v)))
+            object.__setattr__(self.layer, "tls", tls)
+        # commands the child may answer with
+        sd, cc, lg = (ClassRef(env.cmdmod, env.model.cls(CMDS, n)) for n in ("SendData", "CloseConnection", "Log"))
+        self.cmds = {}
+        for key in sorted({c for cs in policy.values() for c in cs}):
+            if key[0] == "send":
+                self.cmds[key] = it.instantiate(sd, [self.conn, key[1]], {}, 0, "harness")
+            elif key[0] == "sendother":
+                self.cmds[key] = it.instantiate(sd, [self.other, b"zz"], {}, 0, "harness")
+            elif key[0] == "closecmd":
+                self.cmds[key] = it.instantiate(cc, [self.conn], {}, 0, "harness")
+            elif key[0] == "log":
+                self.cmds[key] = it.instantiate(lg, ["a message of the child"], {}, 0, "harness")
+            else:
+                self.cmds[key] = Rec("ForeignCommand", _bases=("Command",), _name="foreign", blocking=False)
+        self.tags = {id(v): k for k, v in self.cmds.items()}
+        cmds, describe = self.cmds, self.describe_event
+
+        def handle_event(event):
+            d = describe(event)
+            w["child"].append(d)
+            return [cmds[k] for k in policy.get(d[0], ())]
+
+        child = Rec("ChildLayer", _bases=("Layer",), _name="child", _w=w, _cmds=self.cmds, handle_event=_stub(handle_event))
+        object.__setattr__(self.layer, "child_layer", child)
+        self.set_state(state)
+        if pending is not None:
+            self.pending_cmd = Rec("OpenConnection", _bases=("ConnectionCommand", "Command"), _name=pending, connection=self.conn, blocking=True)
+            object.__setattr__(self.layer, "command_to_reply_to", self.pending_cmd)
+
+    def set_state(self, s):
+        name = {"E": "ESTABLISHING", "O": "OPEN", "C": "CLOSED", "I": "INACTIVE"}[s]
+        object.__setattr__(self.layer, "tunnel_state", self.it.class_attr(ClassRef(self.env.tunmod, self.env.state_cls), name, 0))
+
+    @staticmethod
+    def _bytes(d):
+        return bytes(d) if isinstance(d, (bytes, bytearray, memoryview)) else repr(d)
+
+    @classmethod
+    def describe_event(cls, e):
+        if isinstance(e, Rec):
+            if e._cls == "DataReceived":
+                return ("data", getattr(e.__dict__.get("connection"), "_name", "?"), cls._bytes(e.__dict__.get("data")))
+            if e._cls == "ConnectionClosed":
+                return ("close", getattr(e.__dict__.get("connection"), "_name", "?"))
+            if e._cls == "OpenConnectionCompleted":
+                return ("occ", getattr(e.__dict__.get("command"), "_name", "?"), e.__dict__.get("reply"))
+            return ("ev", e._name)
+        return ("ev", repr(e))
+
+    def describe_command(self, c):
+        if isinstance(c, Rec) and c.isa("CloseConnection"):  # forwarded as it is or re-issued for the tunnel connection: the same to the layer below
+            return ("closeconn", getattr(c.__dict__.get("connection"), "_name", "?"))
+        if id(c) in self.tags:
+            return ("pass", self.tags[id(c)][0])
+        if isinstance(c, Rec) and c._cls == "SendData":
+            return ("send", getattr(c.__dict__.get("connection"), "_name", "?"), self._bytes(c.__dict__.get("data")))
+        return None  # Log commands, hooks, the layer's own CloseConnection: not part of the byte stream
+
+    def event(self, st):
+        it, env = self.it, self.env
+        if st[0] == "wire":
+            return it.instantiate(ClassRef(env.evmod, env.model.cls(EVTS, "DataReceived")), [self.tunnel, st[1]], {}, 0, "harness")
+        if st[0] == "close":
+            return it.instantiate(ClassRef(env.evmod, env.model.cls(EVTS, "ConnectionClosed")), [self.tunnel], {}, 0, "harness")
+        d = st[1]
+        if d[0] == "data":
+            return it.instantiate(ClassRef(env.evmod, env.model.cls(EVTS, "DataReceived")), [self.other, d[2]], {}, 0, "harness")
+        return Rec("MessageInjected", _bases=("Event",), _name=d[1])
+
+    def step(self, st):
+        """-> (child-bound, parent-bound, crash)"""
+        self.w["child"] = []
+        if st[0] == "reestablish":
+            self.set_state("E")
+            return [], [], None
+        if st[0] == "wire" and len(st) > 2:
+            self.w["react"].append(st[2])
+        if st[0] == "close":  # what the proxy core does before it reports the close of a TCP connection (half-close)
+            object.__setattr__(self.tunnel, "state", self.tunnel.state & ~self.env.flag.CAN_READ)
+        out, crash = [], None
+        try:
+            gen = self.it.method(self.layer, "_handle_event", self.event(st))
+            if not isinstance(gen, Gen):
+                raise AnalysisError("TunnelLayer._handle_event is not a generator function (shape not modelled)")
+            out = self.it.run_direct(gen)
+        except Raised as r:
+            crash = f"{r.name}: {r.msg}"[:120]
+        parent = [d for d in (self.describe_command(c) for c in out) if d is not None]
+        return _norm(self.w["child"]), _norm(parent), crash
+
+
+def run_schedule(env, golden_cls, wkw, state, pending, policy, steps, side="client", aspects=("crash", "child", "parent", "fed")):
+    """Interpret one schedule against the layer class of ``env`` and compare with ``golden_cls`` after every event.
+    -> ([(step index, step, golden tunnel state before the step, aspect, text)], number of events compared).  Aspects: crash | child | parent | fed.
+    Comparison stops at the first event that diverges in one of ``aspects`` (later events of a diverged run carry no information)."""
+    w = _ssl_world(**wkw)
+    gw = copy.deepcopy(w)
+    world = _World(env, w, state, pending, policy, side=side)
+    gold = golden_cls(gw, state, pending, policy, tunnel=world.tunnel._name)
+    problems, n = [], 0
+    for k, st in enumerate(steps):
+        gstate = gold.state
+        if st[0] == "wire" and len(st) > 2:
+            gw["react"].append(copy.deepcopy(st[2]))
+        want_child, want_parent = gold.step(st)
+        child, parent, crash = world.step(st)
+        if st[0] == "reestablish":
             continue
         n += 1
-        ctx.paths += 1
-        node = loops[0][2]
-        ok = norm(node.iter) == "self._event_queue" and isinstance(node.target, ast.Name)
-        opened = index_of(t, lambda e: e[0] == "assignx" and e[1] == "self.tunnel_state" and norm(e[2]) == "TunnelState.OPEN")
-        first_loop = index_of(t, lambda e: e[0] == "loop")
-        deliveries = [e for e in t if e[0] == "callx" and e[1] == E2C]
-        clears = [i for i, e in enumerate(t) if e[0] == "callx" and e[1] == "self._event_queue.clear"]
-        last_deliv = max((i for i, e in enumerate(t) if e[0] == "callx" and e[1] == E2C), default=-1)
-        ok = ok and 0 <= opened < first_loop and len(deliveries) == len(loops) and all([norm(a) for a in d[2].args] == [node.target.id] for d in deliveries)
-        ok = ok and len(clears) == 1 and clears[0] > last_deliv
-        bad += not ok
-    ctx.require(n > 0, "TunnelLayer._handshake_finished: replay loop not found on the success path")
-    ctx.check(bad == 0, "R14.3", (TU, "TunnelLayer._handshake_finished", hf), "success: tunnel OPEN, then replay _event_queue in order, then clear",
-              f"{bad} of {n} success path(s) replay queued events before opening the tunnel (they would be re-queued), skip/duplicate events, or do not clear the queue", desc=f"queued events replayed in order after OPEN, queue cleared ({n} paths)")
-    # (d) early application data after the handshake
-    rhd = ctx.func(PT, "TLSLayer.receive_handshake_data")
-    res, eng = traces_of(rhd, FlowSpec(keep=lambda ev: ev[0] == "ret" or (ev[0] == "callx" and ev[1] in ("self.receive_data", "self.tls.do_handshake")), call_nodes=True, ret_nodes=True))
-    n = bad = 0
-    for t, how, st in res:
-        rets = [e[1] for e in t if e[0] == "ret"]
-        if how != "return" or not rets or not isinstance(rets[-1], ast.Tuple) or len(rets[-1].elts) != 2:
-            raise AnalysisError("TLSLayer.receive_handshake_data: a path does not return a (done, err) tuple literal")
-        done = rets[-1].elts[0]
-        if not isinstance(done, ast.Constant):
-            raise AnalysisError("TLSLayer.receive_handshake_data: `done` is not a literal")
-        if done.value is True:
-            n += 1
-            ctx.paths += 1
-            hs = index_of(t, lambda e: e[0] == "callx" and e[1] == "self.tls.do_handshake")
-            rdx = [i for i, e in enumerate(t) if e[0] == "callx" and e[1] == "self.receive_data"]
-            bad += not (hs >= 0 and len(rdx) == 1 and rdx[0] > hs and norm(t[rdx[0]][2]) == "self.receive_data(b'')")
-    ctx.require(n > 0, "TLSLayer.receive_handshake_data: no successful path")
-    ctx.check(bad == 0, "R14.3", (PT, "TLSLayer.receive_handshake_data", rhd), "success -> receive_data(b'') after do_handshake()",
-              f"{bad} of {n} successful path(s) do not drain application data that arrived together with the final handshake bytes", desc=f"receive_data(b'') after a completed handshake ({n} paths)")
-    ctx.expect_instances("R14.3", 1 + 8 + 1 + 1)
+        if crash:
+            problems.append((k, st, gstate, "crash", f"raises {crash}"))
+        else:
+            if child != want_child:
+                problems.append((k, st, gstate, "child", f"the child layer received {_short(child)}, the reference {_short(want_child)}"))
+            elif parent != want_parent:  # (after a wrong delivery the child's answers differ as a consequence)
+                problems.append((k, st, gstate, "parent", f"commands handed down are {_short(parent)}, the reference {_short(want_parent)}"))
+            if w["fed"] != gw["fed"]:
+                problems.append((k, st, gstate, "fed", f"wire bytes fed to OpenSSL are {_short(w['fed'])}, the reference {_short(gw['fed'])}"))
+            elif not problems and (w["out"] or w["plain"] != gw["plain"]):
+                problems.append((k, st, gstate, "parent" if w["out"] else "child", f"OpenSSL still holds unsent records {_short(w['out'])} / unread plaintext {_short(w['plain'])} after the event"))
+        problems = [p for p in problems if p[3] in aspects]
+        if problems:
+            break
+    return problems, n
 
 
-def _r14_4(ctx):
-    """TunnelLayer._handle_command: no command of the inner layer is dropped.  Every terminating path does something with the command:
-    SendData for the tunnelled connection -> send_data(command.data) (encrypts + sends), CloseConnection -> send_close, OpenConnection ->
-    its own OpenConnection, anything else -> passed on unchanged.  A path that returns without any of these silently loses bytes the inner
-    layer sent ("every byte the inner layer sends reaches the peer")."""
-    TUN = "mitmproxy/proxy/tunnel.py"
-    fn = ctx.func(TUN, "TunnelLayer._handle_command")
-    params = [a.arg for a in fn.args.args]
-    ctx.require(len(params) == 2, "TunnelLayer._handle_command signature changed")
-    cmd = params[1]
-    res, eng = traces_of(fn, GenericSpec(keep=lambda e: e[0] in ("yield", "yield_from", "cond"), record_conds=True))
-    term = [(t, how) for t, how, st in res if how == "return"]
-    ctx.require(len(term) >= 4, f"TunnelLayer._handle_command: expected >= 4 returning paths, got {len(term)}")
-    ctx.paths += len(term)
-    dropped = [t for t, how in term if not any(e[0] in ("yield", "yield_from") for e in t)]
-    ctx.check(not dropped, "R14.4", (TUN, "TunnelLayer._handle_command", fn), "every path handles or forwards the command",
-              f"{len(dropped)} path(s) return without sending, closing, opening or forwarding the command (conditions: {[e[1] for e in dropped[0] if e[0] == 'cond'] if dropped else ''}): "
-              "data the inner layer sends is silently lost", desc=f"_handle_command: all {len(term)} returning paths act on the command")
-    send_paths = [t for t, how in term if any(e[0] == "cond" and "SendData" in e[1] and e[2] for e in t)]
-    ctx.require(send_paths, "TunnelLayer._handle_command: no path for SendData found")
-    ok = all(any(e[0] == "yield_from" and e[1].endswith("send_data") for e in t) for t in send_paths)
-    ctx.check(ok, "R14.4", (TUN, "TunnelLayer._handle_command", fn), "SendData -> self.send_data(...) on every path",
-              "a SendData for the tunnelled connection does not reach send_data on every path", desc=f"SendData reaches send_data on all {len(send_paths)} paths")
-    calls = [c for c in walk_in_order(fn) if isinstance(c, ast.Call) and norm(c.func).endswith("self.send_data")]
-    ctx.check(len(calls) >= 1 and all(len(c.args) == 1 and norm(c.args[0]) == f"{cmd}.data" for c in calls), "R14.4", (TUN, "TunnelLayer._handle_command", fn), f"send_data({cmd}.data)",
-              "the bytes handed to send_data are not the command's data", desc=f"send_data receives {cmd}.data itself")
-    ctx.expect_instances("R14.4", 3)
+def _short(x):
+    s = repr(x)
+    return s if len(s) <= 150 else s[:70] + " ... " + s[-70:]
+
+
+# ---------------------------------------------------------------------------------------------------
+# schedules
+
+SILENT = {}
+A, AB, BIGC = b"abc", b"ab", bytes(range(256)) * 300  # 76800 bytes: more than one recv(65535) can return
+
+DATA = [  # (plaintext chunks, ending, TLS output produced at the ending)
+    ((), "want", ()),
+    ((A,), "want", ()),
+    ((AB, b"cde"), "want", (b"K1", b"K2")),
+    ((b"a", b"b", b"c"), "want", (b"K",)),
+    ((BIGC,), "want", ()),
+    ((b"1", b"2", b"3", b"4", b"5", b"6"), "want", (b"K1", b"K2", b"K3")),
+    ((), "zero", ()),
+    ((AB,), "zero", (b"N",)),
+    ((b"a", b"bc", b"d"), "zero", ()),
+    ((), "error", ()),
+    ((AB, b"c"), "error", (b"F",)),
+]
+
+
+def _wire(i, d):
+    return ("wire", b"W%d" % i, (list(d[0]), d[1], list(d[2])))
+
+
+def _schedules(tier):
+    """-> [(name, topic = (rule, label) the schedule is evidence for, world kwargs, start state, pending, policy, steps)]"""
+    out = []
+    ev1, ev2, ev3, ev4 = ("ev", "e1"), ("data", "other", b"x"), ("ev", "e3"), ("ev", "e4")
+    # established tunnel, the read path (child silent)
+    t = ("R14.1", "read path, one event: 0-6 plaintext chunks (one larger than the read size), ending WantRead / close_notify / SSL.Error, TLS output produced while reading")
+    for i, d in enumerate(DATA):
+        out.append((f"read[{i}]", t, {}, "O", None, SILENT, [_wire(0, d)]))
+    t = ("R14.1", "read path, consecutive events: bytes stay in order across events")
+    pairs = [(1, 2), (2, 7), (0, 1), (3, 8), (9, 1), (10, 6), (4, 7), (5, 2)] if tier == "quick" else [(a, b) for a in (0, 1, 2, 3, 4, 5, 9, 10) for b in range(len(DATA))]
+    for a, b in pairs:
+        out.append((f"read[{a}],read[{b}]", t, {}, "O", None, SILENT, [_wire(0, DATA[a]), _wire(1, DATA[b])]))
+    # transport close in the four shutdown states; afterwards the child still gets events for other connections
+    for sent in (0, SENT_SHUTDOWN):
+        t = ("R14.2", f"transport close with SENT_SHUTDOWN={'set' if sent else 'clear'}, before / after close_notify")
+        for d in (None, DATA[1], DATA[6], DATA[7], DATA[8]):
+            steps = ([_wire(0, d)] if d else []) + [("close",), ("other", ev1)]
+            out.append((f"close sent_shutdown={sent} after {'nothing' if d is None else d[1]}", t, {"shutdown": sent}, "O", None, SILENT, steps))
+    # the write path: the child answers
+    t = ("R14.1", "write path: the child answers with SendData; sendall succeeds / fails with ZeroReturnError / SysCallError")
+    reply = {"data": (("send", b"hello!!"),)}
+    for mode in ("ok", "zero", "syscall"):
+        out.append((f"reply sendall={mode}", t, {"sendmode": mode}, "O", None, reply, [_wire(0, DATA[2]), _wire(1, DATA[1])]))
+    out.append(("reply to close_notify", t, {}, "O", None, {"data": (("send", b"ok"),), "close": (("send", b"bye"), ("closecmd",))}, [_wire(0, DATA[7]), ("close",)]))
+    # commands of the child in every tunnel state
+    mixed = {"ev": (("log",), ("send", b"late"), ("sendother",), ("foreign",), ("send", b"x"), ("closecmd",)), "data": (("sendother",), ("send", b"pong"), ("log",)),
+             "close": (("send", b"bye"), ("foreign",))}
+    out.append(("child commands, tunnel open", ("R14.4", "commands of the child while the tunnel is OPEN"), {}, "O", None, mixed, [("other", ev1), _wire(0, DATA[1]), ("other", ev2)]))
+    out.append(("child commands after the peer closed", ("R14.4", "commands of the child after the peer's transport close (half-closed, still writable)"), {}, "O", None, mixed,
+                [_wire(0, DATA[1]), ("close",), ("other", ev1), ("other", ev2)]))
+    out.append(("child commands after close_notify + close", ("R14.4", "commands of the child after close_notify and transport close"), {}, "O", None, mixed,
+                [_wire(0, DATA[7]), ("close",), ("other", ev3)]))
+    out.append(("child commands, tunnel closed from the start", ("R14.4", "commands of the child with tunnel_state CLOSED"), {}, "C", None, mixed, [("other", ev1)]))
+    # handshake
+    for early in ((), (b"early",), (b"ea", b"rly")):
+        for two_flights in (True, False):
+            hs = ([["want", [b"H1"]]] if two_flights else []) + [["ok", [b"H2", b"H3"], list(early)]]
+            steps = [("other", ev1), ("other", ev2)] + ([("wire", b"S1"), ("other", ev3)] if two_flights else []) + [("wire", b"S2"), ("other", ev4), _wire(1, DATA[2])]
+            out.append((f"handshake early={len(early)} flights={1 + two_flights}", ("R14.3", "handshake in one / two flights, events queued meanwhile, with / without early application data"),
+                        {"hs": hs}, "E", None, SILENT, steps))
+            out.append((f"handshake pending OpenConnection early={len(early)} flights={1 + two_flights}", ("R14.3", "handshake on behalf of a pending OpenConnection: direct delivery, completion reported"),
+                        {"hs": hs}, "E", "open-cmd", SILENT, steps))
+    hs = [["ok", [b"H"], [b"early"]]]
+    out.append(("handshake, child answers the replayed events", ("R14.3", "the child answers the replayed events (sent through the fresh tunnel)"), {"hs": hs}, "E", None,
+                {"ev": (("send", b"hi"),), "data": (("send", b"yo"),)}, [("other", ev1), ("other", ev2), ("wire", b"S"), _wire(1, DATA[7])]))
+    out.append(("re-establishment does not replay old events", ("R14.3", "a second establishment replays only what was queued since"), {"hs": [["ok", [b"H"], []]]}, "E", None, SILENT,
+                [("other", ev1), ("other", ev2), ("wire", b"S"), ("reestablish",), ("other", ev3), ("wire", b"S2"), ("other", ev4)]))
+    out.append(("empty handshake trigger", ("R14.3", "handshake started by an empty DataReceived (start_handshake)"), {"hs": [["want", [b"H1"]], ["ok", [], [b"e"]]]}, "E", None, SILENT,
+                [("wire", b""), ("other", ev1), ("wire", b"S")]))
+    return out
+
+
+def _rule_for(st, gstate, aspect, policy):
+    """which clause an observation belongs to: decided by what the layer was doing, not by the schedule's name"""
+    if gstate == "E":
+        return "R14.3"  # handshake in progress: routing of tunnel bytes, queueing, replay, early data
+    if st[0] == "close":
+        return "R14.2" if aspect in ("child", "crash") else "R14.4"
+    if st[0] == "other":
+        return "R14.4"
+    if aspect == "parent" and any(c[0] != "send" for cs in policy.values() for c in cs):
+        return "R14.4"
+    return "R14.1"
+
+
+ASPECTS = {
+    ("R14.1", "child"): ("decrypted bytes reach the child exactly once, in order, close_notify close after the data", "TLSLayer.receive_data"),
+    ("R14.1", "parent"): ("TLS records produced by OpenSSL are all sent, in order, before the event ends", "TLSLayer.tls_interact"),
+    ("R14.1", "fed"): ("received bytes fed to OpenSSL exactly once, before reading", "TLSLayer.receive_data"),
+    ("R14.1", "crash"): ("data path raises", "TLSLayer.receive_data"),
+    ("R14.2", "child"): ("transport close forwarded unless close_notify was already delivered", "TLSLayer.receive_close"),
+    ("R14.2", "crash"): ("transport close raises", "TLSLayer.receive_close"),
+    ("R14.3", "child"): ("events during the handshake are queued and replayed once, in order, early data not stranded", "TunnelLayer.event_to_child"),
+    ("R14.3", "parent"): ("handshake flights / TLS output sent in order", "TLSLayer.receive_handshake_data"),
+    ("R14.3", "fed"): ("handshake bytes fed to OpenSSL exactly once", "TLSLayer.receive_handshake_data"),
+    ("R14.3", "crash"): ("handshake path raises", "TunnelLayer._handle_event"),
+    ("R14.4", "child"): ("events for the child delivered exactly once", "TunnelLayer.event_to_child"),
+    ("R14.4", "parent"): ("commands of the child: SendData encrypted and sent in every tunnel state, everything else passed on once, in order", "TunnelLayer._handle_command"),
+    ("R14.4", "crash"): ("command handling raises", "TunnelLayer._handle_command"),
+    ("R14.4", "fed"): ("received bytes fed to OpenSSL exactly once", "TLSLayer.receive_data"),
+}
+ASPECTS[("R14.2", "parent")] = ASPECTS[("R14.1", "parent")]
+ASPECTS[("R14.2", "fed")] = ASPECTS[("R14.1", "fed")]
+
+
+def _where(ctx, qual):
+    rel = PT if qual.startswith("TLSLayer") else TU
+    if not ctx.model.has(rel, qual):
+        rel, qual = TU, "TunnelLayer._handle_event"
+    return rel, qual, ctx.model.func(rel, qual)
+
+
+def _run(ctx, env, sched):
+    """-> problems [(rule, aspect, text)], number of events compared"""
+    name, topic, wkw, state, pending, policy, steps = sched
+    found, n = run_schedule(env, _Golden, wkw, state, pending, policy, steps, side="client" if len(name) % 2 else "server")
+    return [(_rule_for(st, gstate, aspect, policy), aspect, f"schedule `{name}`, event {k + 1} ({st[0]}): {text}") for k, st, gstate, aspect, text in found], n
 
 
 def check(ctx):
-    ctx.rule("R14.4", "TunnelLayer._handle_command never drops a command: SendData reaches send_data(command.data) on every path")
-    ctx.rule("R14.1", "receive_data / send_data / tls_interact: feed before read, accumulate, deliver once, close after data, flush after I/O")
-    ctx.rule("R14.2", "receive_close suppresses the transport close only after close_notify (RECEIVED_SHUTDOWN)")
-    ctx.rule("R14.3", "handshake-time events are queued, replayed in order after OPEN; receive_data(b'') after a completed handshake")
-    ctx.trust("pyOpenSSL Connection.recv/bio_read/bio_write/sendall/get_shutdown semantics; WantReadError/ZeroReturnError are subclasses of SSL.Error")
-    ctx.assume("exceptions are modelled at every statement of a try body for the classes its handlers name")
-    _r14_1(ctx)
-    _r14_2(ctx)
-    _r14_3(ctx)
-    _r14_4(ctx)
+    ctx.rule("R14.1", "post-handshake data path: feed once before reading, all plaintext delivered once in order, close_notify close after the data, TLS output flushed; "
+             "SendData of the child encrypted once, all records sent in order (also when sendall fails)")
+    ctx.rule("R14.2", "a transport close is forwarded to the child unless close_notify was already delivered (RECEIVED_SHUTDOWN), in all four shutdown states")
+    ctx.rule("R14.3", "handshake: tunnel bytes go to the handshake, child events are queued while ESTABLISHING (without pending OpenConnection) and replayed once, in order, "
+             "followed by early application data; no replay of old events on re-establishment")
+    ctx.rule("R14.4", "TunnelLayer never drops or rewrites a command of the child: SendData reaches OpenSSL and the wire in every tunnel state, the rest is passed on in order")
+    ctx.trust("pyOpenSSL Connection semantics as modelled by the stub: bio_write/recv/bio_read/sendall/get_shutdown/do_handshake; WantReadError, ZeroReturnError, SysCallError "
+              "are subclasses of SSL.Error; recv/bio_read return at most the requested number of bytes; RECEIVED_SHUTDOWN is set when recv reported close_notify")
+    ctx.assume("TLSLayer is driven through _handle_event with tunnel_connection == conn; debug logging off (Layer.debug is None); the harness pulls all commands of an "
+               "event before the next event (what Layer.handle_event does for a layer that is not blocked); as the proxy core does, CAN_READ is cleared on the "
+               "tunnel connection before its ConnectionClosed is delivered")
+    ctx.bounds.append("schedules of at most 7 events; at most 6 plaintext chunks / 3 pending TLS records per read; record payload size 3 in the model")
+    for rel, qual in ((TU, "TunnelLayer._handle_event"), (TU, "TunnelLayer.event_to_child"), (PT, "TLSLayer.receive_data"), (PT, "TLSLayer.send_data"),
+                      (PT, "TLSLayer.receive_close"), (PT, "TLSLayer.receive_handshake_data")):
+        ctx.func(rel, qual)
+    for rel, qual in ((TU, "TunnelLayer._handle_command"), (TU, "TunnelLayer._handshake_finished"), (PT, "TLSLayer.tls_interact"), (TU, "TunnelLayer.receive_close")):
+        if ctx.model.has(rel, qual):
+            ctx.functions.add(f"{rel}::{qual}")
+    env = _Env(ctx)
+    found = {}
+    topics = {}  # topic -> [schedules run, schedules that diverged]
+    errors = []
+    for sched in _schedules(ctx.tier):
+        t = topics.setdefault(sched[1], [0, 0])
+        try:
+            problems, n = _run(ctx, env, sched)
+        except AnalysisError as e:
+            errors.append(f"schedule `{sched[0]}`: {e}")
+            t[1] += 1
+            continue
+        ctx.cells += n
+        ctx.paths += 1
+        t[0] += 1
+        t[1] += bool(problems)
+        for rule, aspect, text in problems:
+            found.setdefault((rule, aspect), text)
+    for (rule, aspect), text in sorted(found.items()):
+        construct, qual = ASPECTS[(rule, aspect)]
+        ctx.fail(rule, _where(ctx, qual), construct, text)
+    for e in dict.fromkeys(errors):
+        if len(ctx.deferred) < 3:
+            ctx.deferred.append(e)
+    for (rule, label), (n, bad) in topics.items():
+        if not bad:
+            ctx.ok(rule, f"{label}: {n} schedule(s) agree with the reference model after every event")
+    ctx.note(f"{sum(n for n, _ in topics.values())} schedules interpreted")
+    for rule, n in (("R14.1", 3), ("R14.2", 2), ("R14.3", 5), ("R14.4", 4)):
+        ctx.expect_instances(rule, n)
 
 
 MUTANTS = [
@@ -383,13 +1076,18 @@ MUTANTS = [
     Mutant("close-before-data", PT,
            "        if plaintext:\n            yield from self.event_to_child(\n                events.DataReceived(self.conn, bytes(plaintext))\n            )\n        if close:\n            self.conn.state &= ~connection.ConnectionState.CAN_READ\n            if self.debug:\n                yield commands.Log(f\"{self.debug}[tls] close_notify {self.conn}\", DEBUG)\n            yield from self.event_to_child(events.ConnectionClosed(self.conn))\n",
            "        if close:\n            self.conn.state &= ~connection.ConnectionState.CAN_READ\n            yield from self.event_to_child(events.ConnectionClosed(self.conn))\n        if plaintext:\n            yield from self.event_to_child(\n                events.DataReceived(self.conn, bytes(plaintext))\n            )\n", "R14.1"),
+    Mutant("close-only-without-data", PT, "        if close:\n            self.conn.state &= ~connection.ConnectionState.CAN_READ\n", "        elif close:\n            self.conn.state &= ~connection.ConnectionState.CAN_READ\n", "R14.1"),
     Mutant("buffer-reset-each-read", PT, "        while True:\n            try:\n                plaintext.extend(self.tls.recv(65535))\n", "        while True:\n            try:\n                plaintext = bytearray()\n                plaintext.extend(self.tls.recv(65535))\n", "R14.1"),
+    Mutant("single-read", PT, "                plaintext.extend(self.tls.recv(65535))\n            except SSL.WantReadError:\n                break\n", "                plaintext.extend(self.tls.recv(65535))\n                break\n            except SSL.WantReadError:\n                break\n", "R14.1"),
     Mutant("close-notify-swallowed", PT, "            except SSL.ZeroReturnError:\n                close = True\n                break\n", "            except SSL.ZeroReturnError:\n                break\n", "R14.1"),
     Mutant("no-flush-after-recv", PT, "        # https://github.com/mitmproxy/mitmproxy/discussions/7550\n        yield from self.tls_interact()\n\n        if plaintext:", "        if plaintext:", "R14.1"),
     Mutant("data-fed-after-read", PT, "    def receive_data(self, data: bytes) -> layer.CommandGenerator[None]:\n        if data:\n            self.tls.bio_write(data)\n\n        plaintext = bytearray()",
            "    def receive_data(self, data: bytes) -> layer.CommandGenerator[None]:\n        plaintext = bytearray()", "R14.1"),
+    Mutant("data-fed-twice", PT, "    def receive_data(self, data: bytes) -> layer.CommandGenerator[None]:\n        if data:\n            self.tls.bio_write(data)\n",
+           "    def receive_data(self, data: bytes) -> layer.CommandGenerator[None]:\n        if data:\n            self.tls.bio_write(data)\n            self.tls.bio_write(data)\n", "R14.1"),
     Mutant("send-data-no-flush-on-error", PT, "            # The other peer may still be trying to send data over, which we discard here.\n            pass\n        yield from self.tls_interact()\n",
            "            # The other peer may still be trying to send data over, which we discard here.\n            return\n        yield from self.tls_interact()\n", "R14.1"),
+    Mutant("send-data-error-escapes", PT, "        except (SSL.ZeroReturnError, SSL.SysCallError):\n", "        except SSL.ZeroReturnError:\n", "R14.1"),
     Mutant("interact-sends-first-chunk-only", PT, "            else:\n                yield commands.SendData(self.conn, data)\n\n    def receive_handshake_data", "            else:\n                yield commands.SendData(self.conn, data)\n                return\n\n    def receive_handshake_data", "R14.1"),
     Mutant("receive-close-inverted", PT, "        if self.tls.get_shutdown() & SSL.RECEIVED_SHUTDOWN:\n", "        if not self.tls.get_shutdown() & SSL.RECEIVED_SHUTDOWN:\n", "R14.2"),
     Mutant("receive-close-sent-shutdown", PT, "        if self.tls.get_shutdown() & SSL.RECEIVED_SHUTDOWN:\n", "        if self.tls.get_shutdown() & SSL.SENT_SHUTDOWN:\n", "R14.2"),
@@ -397,6 +1095,7 @@ MUTANTS = [
     Mutant("queue-while-pending-open", TU, "            self.tunnel_state is TunnelState.ESTABLISHING\n            and not self.command_to_reply_to\n        ):\n            self._event_queue.append(event)",
            "            self.tunnel_state is TunnelState.ESTABLISHING\n        ):\n            self._event_queue.append(event)", "R14.3"),
     Mutant("queue-drops-events", TU, "            self._event_queue.append(event)\n            return\n", "            return\n", "R14.3"),
+    Mutant("queue-lifo", TU, "            self._event_queue.append(event)\n            return\n", "            self._event_queue.insert(0, event)\n            return\n", "R14.3"),
     Mutant("replay-before-open", TU, "        if err:\n            self.tunnel_state = TunnelState.CLOSED\n        else:\n            self.tunnel_state = TunnelState.OPEN\n        if self.command_to_reply_to:",
            "        if err:\n            self.tunnel_state = TunnelState.CLOSED\n        if self.command_to_reply_to:", "R14.3"),
     Mutant("queue-not-cleared", TU, "                yield from self.event_to_child(evt)\n            self._event_queue.clear()\n", "                yield from self.event_to_child(evt)\n", "R14.3"),
